@@ -17,7 +17,7 @@ from ..runner import CaseResult, digest
 ID = "C18"
 RULE = ("programs: every precondition program with <= 2 literals, every one-level or / forall precondition, every "
         "effect program with <= 2 simple effects, one when, or one forall-when (quick alphabets; thorough: the whole quick "
-        "corpus) with profiles (?x ?y), (?x - t2 ?y), (?x), plus a 3-parameter family and 4 programs over two-parameter fluents; renamings: all fresh, every "
+        "corpus) with profiles (?x ?y), (?x - t2 ?y), (?x), plus a 3-parameter family, 4 programs over two-parameter fluents and 3 with parameters named ?z_0 / ?z_1 next to a quantifier over ?z; renamings: all fresh, every "
         "permutation of the existing names, chain into a fresh name, partial; x every type-correct call x every "
         "state of the relevant universe. non-trivial = a non-identity renaming of a program whose behaviour table is "
         "not constant")
@@ -89,6 +89,15 @@ TWO_BOUND = [  # two quantified effects / conditions with differently named vari
 ]
 
 
+SUFFIXED = [
+    ("?x - t1 ?z_0 - t1", "(and (forall (?z - t1) (or (q ?z ?z_0) (p ?x))))",
+     "(and (forall (?z - t1) (when (q ?z ?z_0) (and (not (q ?z ?z_0)) (q ?x ?z)))))"),
+    ("?x - t1 ?z_0 - t1", "(and (p ?z_0))", "(and (forall (?z - t1) (when (q ?x ?z) (q ?z_0 ?z))))"),
+    ("?x - t1 ?z_0 - t1 ?z_1 - t1", "(and (forall (?z - t1) (or (q ?z ?z_0) (q ?z_1 ?z) (p ?x))))",
+     "(and (forall (?z - t1) (when (q ?z_1 ?z) (q ?z_0 ?z))) (not (p ?x)))"),
+]
+
+
 def renamings(params):
     fresh = ["?u", "?v", "?k"]
     out = [("identity", {p: p for p in params}), ("fresh", {p: f for p, f in zip(params, fresh)})]
@@ -155,6 +164,13 @@ def cases(tier):
                 f" :precondition {pre}\n :effect {eff}))\n")
         progs.append({"domain": text, "objects": dict(vdom.OBJECTS), "profile": "ab", "pre": pre, "eff": eff,
                       "tags": ["as-declared"], "header": "typed"})
+    # a parameter named like the name a displaced quantified variable would be given (?z_0, then ?z_1), used inside the
+    # scope of the quantifier over ?z; the renamings 'onto-bound-name' keep it and move another parameter onto ?z
+    for params, pre, eff in SUFFIXED:
+        text = (f"(define (domain v)\n{vdom.header('typed')}\n(:action a\n :parameters ({params})\n"
+                f" :precondition {pre}\n :effect {eff}))\n")
+        progs.append({"domain": text, "objects": dict(vdom.OBJECTS), "profile": "suffixed", "pre": pre, "eff": eff,
+                      "tags": ["suffixed-names"], "header": "typed"})
     for pre, eff in THREE:
         text = (f"(define (domain v)\n{vdom.header('typed')}\n(:action a\n :parameters ({P3})\n"
                 f" :precondition {pre}\n :effect {eff}))\n")
